@@ -529,15 +529,32 @@ func (s *state) visitForRange(node *ast.ForNode) {
 
 	var varIndex,
 		varLimit = s.scope.pushForRange(node.Var)
-	defer s.scope.pop()
+	// the loop variable is visible in the loop body only: not in the range
+	// arguments and not in {ifempty}.
+	var loopFrame = s.scope.stack[len(s.scope.stack)-1]
+	s.scope.pop()
 	s.jsln("var ", varLimit, " = ", limit, ";")
+	if node.IfEmpty != nil {
+		s.jsln("if (", init, " < ", varLimit, ") {")
+		s.indentLevels++
+	}
 	s.jsln("for (var ", varIndex, " = ", init, "; ",
 		varIndex, " < ", varLimit, "; ",
 		varIndex, " += ", increment, ") {")
 	s.indentLevels++
+	s.scope.stack = append(s.scope.stack, loopFrame)
 	s.walk(node.Body)
+	s.scope.pop()
 	s.indentLevels--
 	s.jsln("}")
+	if node.IfEmpty != nil {
+		s.indentLevels--
+		s.jsln("} else {")
+		s.indentLevels++
+		s.walk(node.IfEmpty)
+		s.indentLevels--
+		s.jsln("}")
+	}
 }
 
 func (s *state) visitForeach(node *ast.ForNode) {
